@@ -1,10 +1,11 @@
 #!/bin/sh
+here="$(cd "$(dirname "$0")" && pwd)"
 # usage: seed_all.sh <ID> <demo pkg dir> <tier> <check ids...>
 id=$1; pkg=$2; tier=$3; shift; shift; shift
 for m in ${SEEDBASE:-/tmp/seed}/$id/out/m*/; do
   echo "##### $id $(basename $m)"
   mp=$pkg
   if [ "$pkg" = auto ]; then mp=$(grep -h -m1 "^package " $m/*_test.go | head -1 | awk '{print $2}' | sed 's/_test$//'); fi
-  sh /verif/scripts/seed_verify.sh $m $mp | tail -1
-  sh /verif/scripts/seed_run.sh $m/patch.diff $tier "$@" 2>&1 | grep -E "^==|signature|message" | head -8 | cut -c1-330
+  sh $here/seed_verify.sh $m $mp | tail -1
+  sh $here/seed_run.sh $m/patch.diff $tier "$@" 2>&1 | grep -E "^==|signature|message" | head -8 | cut -c1-330
 done
